@@ -203,6 +203,16 @@ var encodings = []encoding{
 		b, _ := json.Marshal(r.Params)
 		return httpDo("POST", e.srv.URL+"/api"+r.URI, string(b), "application/json")
 	}},
+	{"json-body-leading-blank", func(e *engine, r Req) Resp {
+		// JSON texts may begin with white space (RFC 8259)
+		b, _ := json.Marshal(r.Params)
+		return httpDo("POST", e.srv.URL+"/api"+r.URI, " "+string(b), "application/json")
+	}},
+	{"json-body-pretty", func(e *engine, r Req) Resp {
+		// the same body as a pretty-printer writes it: a newline first, tab-indented
+		b, _ := json.MarshalIndent(r.Params, "", "\t")
+		return httpDo("POST", e.srv.URL+"/api"+r.URI, "\n"+string(b)+"\n", "application/json")
+	}},
 	envelopeEnc("json-envelope", "/api"),
 	yamlEnc("yaml", "/api"),
 	batchEnc("batch", "/api"),
